@@ -565,6 +565,20 @@ impl Checker<'_> {
                             format!("journal prefix records {jid}@{d} as {ds} while its dependent {jid}@{tid} is still pending: a restart at this point runs the dependent"),
                             case.clone(),
                         );
+                        if when.is_empty() {
+                            // C10 "with its dependencies intact": before the crash the dependent was
+                            // held back by this dependency, after the restart nothing holds it back
+                            // (a dependency that was already unsuccessful at submit never held it
+                            // back in the live server either: that is C03's listed finding, the
+                            // restore reproduces the recorded state faithfully)
+                            self.v(
+                                "C10",
+                                "dependency-on-unsuccessful-task-not-intact",
+                                format!("dep-{ds}"),
+                                format!("journal prefix records {jid}@{d} as {ds} while its dependent {jid}@{tid} has no recorded outcome: the restart hands the dependent to the scheduler without that dependency"),
+                                case.clone(),
+                            );
+                        }
                     }
                 }
                 let exp_unfinished = t.deps.iter().filter(|x| !terminal(rj.tasks.get(x).map(|y| y.status).unwrap_or("unknown"))).count() as u32;
